@@ -288,7 +288,7 @@ def run(ctx):
     mods += typed_constant_modules(g, rnd, 4 if ctx.tier == "quick" else 40)
     mods += extinst_modules(g, rnd, 3 if ctx.tier == "quick" else 30, TG)
     for insts in mods:
-        version = 0x00010000 | (rnd.randrange(7) << 8)
+        version = instgen.some_version(rnd)
         bound = rnd.choice([1, 100, 4294967295, 1 + max([i.rid or 0 for _, i in insts] + [0])])
         words = instgen.module_words(insts, version=version, bound=bound)
         r = "disasbin " + instgen.to_bytes(words).hex()
